@@ -538,3 +538,40 @@ def c10(ctx):
     design = [("EvictionMC", "Eviction.cfg", {})]
     return det_run(ctx, "reg", "TestC10", "c10.ndjson", "c10.summary.json", "EvictionTrace", "EvictionTrace.cfg",
                    {"VERIF_ROUNDS": 1 if quick else 8}, design, rule, "eviction bounds", tags_of=c10_tags)
+
+
+def c17_tags(head, evs, line, msg):
+    e = evs[-1] if evs else {}
+    return {"event": e.get("t", ""), "type": e.get("type", ""), "stage": e.get("stage", ""), "klen": e.get("klen", 0), "ret": e.get("ret", "")}
+
+
+@register("C17")
+def c17(ctx):
+    quick = ctx.tier == "quick"
+    ctx.assumptions += ["values are compared through a canonical rendering (bit patterns for floats, UnixNano and zone offset for times, hex for bytes)",
+                        "a key of exactly 256 bytes may be accepted or rejected (the documented limit is ambiguous by one)",
+                        "time zone offsets are whole minutes (what RFC 3339, the wire format of time values, can express)"]
+    rule = ("boundary representatives of every supported type (min/max of every integer width, +-0, denormals, +-Inf, NaN, max float32/64, empty / binary / CR-LF / "
+            "1 MiB strings and byte slices, extreme times and durations, a BinaryMarshaler) plus seeded random values, written through two embedded clients, a cluster "
+            "client and a pipeline, read back into the same type through a random client: directly, after a member joined (migration) and after a member was lost; "
+            "keys of 1/254/255/256/257/300 bytes and entry sizes T-2..T+2 on R in {1,2} with white-box search for truncated copies; non-trivial = every distinct value "
+            "plus every size case within one byte of a limit")
+    return det_run(ctx, "reg", "TestC17", "c17.ndjson", "c17.summary.json", "CodecTrace", "CodecTrace.cfg",
+                   {"VERIF_C17_RANDOM": 80 if quick else 3000}, [], rule, "value and key fidelity", tags_of=c17_tags)
+
+
+def c18_tags(head, evs, line, msg):
+    e = evs[-1] if evs else {}
+    return {"event": e.get("t", ""), "after": e.get("after", "")}
+
+
+@register("C18")
+def c18(ctx):
+    quick = ctx.tier == "quick"
+    ctx.assumptions += ["values are compared through a digest (length and FNV-1a) taken when they were handed out and again after every later step"]
+    rule = ("after a read (Get or GetPut, as bytes or as string, through the embedded or the cluster client) 2-5 follow-ups drawn from: overwrite, delete, churn of other "
+            "keys + compaction + table reuse (table size 600 bytes so that a table is recycled within a few writes), the caller overwriting the returned bytes, the caller "
+            "reusing the buffer it passed to Put, more reads; after every step every handle and the stored value are looked at again; N in {1,2}, R in {1,2}; "
+            "every sequence observes a handle after a later mutation of the store")
+    return det_run(ctx, "reg", "TestC18", "c18.ndjson", "c18.summary.json", "SnapshotTrace", "SnapshotTrace.cfg",
+                   {"VERIF_SEQUENCES": 40 if quick else 2000}, [], rule, "returned values are private snapshots", tags_of=c18_tags)
